@@ -63,7 +63,9 @@ _with("w_roll", "roll", "0.15", THOROUGH, modes=(False,))
 _with("w_pos", "position", _pt(), QUICK)
 _with("w_rci", "regionContainedIn", "r0", QUICK)
 _with("w_heading", "heading", "1.1", CORE)  # derived in 3D; `facing 1.1` in 2D mode
-_with("w_orient", "orientation", "(1.2, 0, 0)", THOROUGH)
+# (not on Point classes: there `orientation` is an ordinary, untyped property and a tuple
+# value breaks `left of <vector>` at evaluation: a typing matter, not one of resolution)
+_with("w_orient", "orientation", "(1.2, 0, 0)", THOROUGH, classes=("Object", "OrientedPoint", "A", "B", "C", "Q", "H", "F"))
 _with("w_ondir", "onDirection", "(0, 0, 1)", THOROUGH)
 _with("w_base", "baseOffset", "(0, 0, -0.25)", THOROUGH)
 _with("w_shape", "shape", "shp", THOROUGH)
@@ -301,11 +303,11 @@ def plan(tier: str):
             if cls in CLASSDEFS and mode2D not in CLASSDEFS[cls].modes:
                 continue
             if tier == "quick":
-                sizes = [(0, QUICK), (1, THOROUGH), (2, QUICK)]
+                sizes = [(0, QUICK), (1, TABLE), (2, QUICK)]
                 if cls in ("Object", "B"):
                     sizes.append((3, CORE))
             else:
-                sizes = [(0, QUICK), (1, THOROUGH), (2, THOROUGH)]
+                sizes = [(0, QUICK), (1, TABLE), (2, THOROUGH)]
                 if cls == "Object":
                     sizes.append((3, THOROUGH))
                 elif cls in ("B", "Point", "C"):
